@@ -722,7 +722,7 @@ func (m strSubstring) Call(args ...interface{}) (v interface{}, err error) {
 	if stop < 0 {
 		return nil, fmt.Errorf("found negative index for strSubstring: %d", stop)
 	}
-	if int(stop) >= len(str) {
+	if int(stop) > len(str) {
 		return nil, fmt.Errorf("stop index too large for string in strSubstring: %d", stop)
 	}
 	if start > stop {
